@@ -10,7 +10,7 @@ From JP Require Import Bytes Json Text Strings Den Pointer ImplV5 ImplMerge.
 
 Record opts4 := mkOpts4 { g_neg : bool; g_limit : Z; g_nullsz : option Z }.
 
-Definition o5 (g : opts4) : opts := mkOpts (g_neg g) (g_limit g) false false true (g_nullsz g).
+Definition o5 (g : opts4) : opts := mkOpts (g_neg g) (g_limit g) false false true [] (g_nullsz g).
 
 Definition obj_of (ms : list (bytes * tjson)) : list (bytes * node) := build_obj ms [].
 
